@@ -33,6 +33,9 @@ Begin1(e) ==
     /\ cur' = [t \in Threads |-> <<>>]
     /\ out' = [t \in Threads |-> <<>>]
     /\ memo' = [c \in 1..NCols |-> [rowid |-> 0, val |-> 0]]
+    /\ opnd' = [k \in Threads \cup {0} |-> Opnd0]
+    /\ names' = [k \in Threads \cup {0} |-> NoNames]
+    /\ slot' = [t \in Threads |-> NoNames]
 
 FirstBad(rows, obs) ==
     IF Len(obs) # Len(rows) THEN 0
